@@ -6,7 +6,7 @@ Core Lean only.  `Model/C04.lean` models `PhasedVcfWriter.write` for the records
 header pipeline for GIVEN lists of used contigs / FORMATs / INFOs.  This file adds what sits around it:
 
 * `VcfReader.__iter__` / `_process_single_chromosome` (whatshap/vcf.py) as far as it decides WHICH records become
-  rows of the variant table: `groupChrom` (= `itertools.groupby(record.chrom)`), `readChrom` (no ALT / multi-ALT /
+  rows of the variant table: `groupChrom` (= `itertools.groupby(record.chrom)`), `readerRows` (no ALT / multi-ALT /
   non-SNV under `--only-snvs` are skipped, `VcfNotSortedError`, duplicate positions skipped, the ploidy checks with
   `self.ploidy` carried from chromosome to chromosome);
 * `VcfAugmenter._iterrecords` / `_record_modifier` (the streaming of the template file through the writer, with
@@ -72,23 +72,23 @@ def beforePrev (prev : Option Nat) (pos : Nat) : Bool :=
 
 /-- `_process_single_chromosome` over one chromosome block: for every record whether it becomes a row of the
     variant table, and the reader's ploidy afterwards.  `prev` = `prev_position`. -/
-def readChrom (onlySnvs : Bool) : Option Nat → Option Nat → List Record → Except ReadErr (List Bool × Option Nat)
+def readerRows (onlySnvs : Bool) : Option Nat → Option Nat → List Record → Except ReadErr (List Bool × Option Nat)
   | _, pl, [] => .ok ([], pl)
   | prev, pl, r :: rs =>
     if !kindOk onlySnvs r then
-      match readChrom onlySnvs prev pl rs with
+      match readerRows onlySnvs prev pl rs with
       | .ok (f, pl') => .ok (false :: f, pl')
       | .error e => .error e
     else if beforePrev prev r.pos then .error .notSorted
     else if prev == some r.pos then
-      match readChrom onlySnvs prev pl rs with
+      match readerRows onlySnvs prev pl rs with
       | .ok (f, pl') => .ok (false :: f, pl')
       | .error e => .error e
     else
       match ploidyStep pl r.calls with
       | .error e => .error e
       | .ok pl1 =>
-        match readChrom onlySnvs (some r.pos) pl1 rs with
+        match readerRows onlySnvs (some r.pos) pl1 rs with
         | .ok (f, pl') => .ok (true :: f, pl')
         | .error e => .error e
 
@@ -110,7 +110,7 @@ def groupChrom : List FRec → List (String × List FRec)
 def readBlocks (onlySnvs : Bool) : Option Nat → List (String × List FRec) → Except ReadErr (List (List Bool))
   | _, [] => .ok []
   | pl, (_, g) :: gs =>
-    match readChrom onlySnvs none pl (g.map (·.record)) with
+    match readerRows onlySnvs none pl (g.map (·.record)) with
     | .error e => .error e
     | .ok (f, pl') =>
       match readBlocks onlySnvs pl' gs with
@@ -245,7 +245,8 @@ def streamCalls (cfg : Cfg) : List String → Aug → List (IterRes × Nat)
 
 /-! ## `missing_headers`: the scan over the records -/
 
-def isSymbolic (alt : String) : Bool := alt.startsWith "<"
+/-- `alt.startswith("<")` -/
+def isSymbolic (alt : String) : Bool := alt.toList.head? == some '<'
 
 /-- (contigs, FORMAT keys, INFO keys) in the order the records use them; `outputHeader` de-duplicates -/
 def scanUsed (recs : List FRec) : List String × List String × List String :=
